@@ -17,13 +17,15 @@ CLAIMED = {
                   "correspondence with the extracted model and checked against an independent itertools oracle.",
             note="Trusted: Coq kernel, translator (textual recognition of the _pows loop, fail closed), extraction+driver, harness. encode's namespace normalisation (make_dict/handle_str) and dict overwrite semantics are modelled/tied by correspondence only; values are exact integers (binary64 rounding not modelled).",
             technique="Coq proof (induction, offsets invariant) + translator flag + extracted-model correspondence", design="§5 C20"),
- "C17": dict(text="Coq theorem bisect_eq_scan (C17/Props.v): for every operator (= != < <= > >= in !in), argument, column and sorted segment [lo,hi) the rows selected by the bisect ranges, "
-                  "in order and multiplicity, equal the row-by-row scan (Missing = largest value); my_bisect shortcuts sound incl. the empty range; sorted(set(arg)) modelled and proved sorted/distinct/same members. "
-                  "Insert (rows, ragged dicts), index (run refinement with stable sorts), where/where-of-where, groupby and copy are tied by operation-sequence correspondence with the extracted model "
+ "C17": dict(text="Coq theorems (C17/Props.v): indexed_query_eq_full_scan - for ANY table (any data incl. Missing cells and duplicates), ANY index column list and ANY keyword condition (= != < <= > >= in !in), the rows selected through the index after Table.index, "
+                  "in order and multiplicity, are exactly the rows a full scan of the re-ordered column selects. It composes index_establishes_the_invariant (by induction over the index levels: each level sorts positions inside the current runs, refines the runs by "
+                  "equal values, later levels do not move earlier columns; index only permutes rows) with where_on_invariant_eq_scan (the runs of every level chain-partition the table; per run bisect_eq_scan: bisect ranges on a sorted segment = scan; "
+                  "my_bisect shortcuts sound incl. the empty range; sorted(set(arg)) sorted/distinct/same members). Insert (rows, ragged dicts), index, where/where-of-where, groupby and copy are tied by operation-sequence correspondence with the extracted model "
                   "and checked against an independent list-of-rows oracle (permutation + lexicographic sortedness for index, partition for groupby).",
-            note="Trusted: Coq kernel, extraction+driver, harness. CPython bisect/sorted are modelled by their specifications; View index arithmetic is modelled as the table of selected rows (refinement) and tied by correspondence only. "
-                 "index correctness (permutation, lexicographic order, runs) is NOT proved in Coq - it is checked by the oracle on every generated sequence (partial). 'match'/callables: oracle only. Two open findings (stale index after insert, copy shares data).",
-            technique="Coq proof (sorted-segment interval lemmas) + extracted-model op-sequence correspondence", design="§5 C17"),
+            note="Trusted: Coq kernel, extraction+driver, harness. CPython bisect/sorted are modelled by their specifications (stable insertion sort); View index arithmetic is modelled as the table of selected rows (refinement) and tied by correspondence; "
+                 "multi-keyword where (sorted set of the union), where-of-where, groupby and insert have no theorem of their own (correspondence + oracle). 'match'/callables: oracle only. Two open findings (stale index after insert, copy shares column lists) "
+                 "are exactly the situations in which the invariant's hypothesis fails.",
+            technique="Coq proof (index invariant by induction over levels, sorted-segment interval lemmas, chain partition of runs) + extracted-model op-sequence correspondence", design="§5 C17"),
  "C09": dict(text="Coq theorems (C09/Props.v) over a position model of the filters: Shuffle and Riffle are permutations, Sort is a stable ordering (permutation + sorted + equal keys keep input order), "
                   "Slice positions, Reservoir yields min(n,N) distinct in-range positions for ANY skip lengths (strict: n or nothing), Where's peek of max+1 interactions decides the range exactly "
                   "(theorem over the generated _in_min_max and peek flag), Batch then Unbatch is the identity. Tied to the code by the translator and by position-recovery correspondence "
